@@ -339,8 +339,12 @@ ScanStep == \/ OpNonOption \/ OpLoneDash \/ OpUnknownLong \/ OpUnknownShort \/ O
 (* results and pass sequencing *)
 \* what the program can observe after a pass.  keep[k]: 1 = word k must still be there, 0 = must be gone, 2 = either
 TvDelta == { <<j, tv[j]>> : j \in { q \in 1 .. NOpt : tv[q] # TV0(q) } }       \* targets that differ from their initial value
+\* I: the program reads the bad-option count through an 8-bit quantity (SPIFOPT_BADOPTS_GET): an ideal counter of that
+\* width stops at its largest value instead of wrapping round to "no bad options"
+BadMax == 255
+CapBad(n) == IF n > BadMax THEN BadMax ELSE n
 Result(ph, keepv) == [pass |-> ph, fl |-> flags, tv |-> TvDelta, keep |-> keepv,
-                      badLo |-> badLo, badHi |-> badHi, badOpen |-> badOpen,
+                      badLo |-> CapBad(badLo), badHi |-> CapBad(badHi), badOpen |-> badOpen,
                       sf |-> st \ {"PRE"}]                      \* S: the pre-parse setting is cleared by the pass that used it
 KeepPre  == [k \in 1 .. NArgs |-> IF mark[k] = "keep" THEN 1 ELSE 2]      \* between the passes only non-option words are claimed
 KeepAll  == [k \in 1 .. NArgs |-> 1]
